@@ -103,7 +103,7 @@ class P(Prop):
     ]
     partial = []
     open_statements = [
-        "IEEE rounding is outside the theorems (ordered field): float overshoot int(L/ds)*ds > L (finding spatial-float-overshoot), loss of the (1+1e-8) guard on epoch-scale stamps and the truncation of the millisecond field are only sampled by the transfer check",
+        "IEEE rounding is outside the theorems (ordered field): float overshoot int(L/ds)*ds > L (repaired by the fix commits 6fb91a5 + 3031a33: bounded scan and abscissa clamped to L, both mirrored by the model and proved to be no-ops in exact arithmetic; their effect in floats is covered by the Float-model correspondence and the oracle), loss of the (1+1e-8) guard on epoch-scale stamps and the truncation of the millisecond field are only sampled by the transfer check",
         "requested instants that are not in chronological order are outside T1/T2 (the code does not interpolate them: finding unsorted-request-list)",
         "stamping an output with ObsTime.readUnixTime(t) is C03's theorem; C05 theorems speak about t in seconds",
     ]
@@ -780,8 +780,6 @@ class P(Prop):
         l = self.instants(case)
         if case["mode"] == 2 and l is not None and any(b < a for a, b in zip(l, l[1:])):
             return "unsorted-request-list"
-        if self.overshoots(case) and isinstance(impl_out, dict) and impl_out.get("err") == "err:index":
-            return "spatial-float-overshoot"
         return None
 
     # ------------------------------------------------------------------ shrinking / search
